@@ -214,14 +214,20 @@ func (r *nodeBasedBalancer) swapShard(
 	}
 	fromNodeID := fromNode.GetIdentifier()
 
-	// filter selected
+	// filter selected: the other members of the shard's ensemble as of this round. They are taken
+	// from the load ratios, which already reflect the swaps proposed so far, and not from the
+	// ensemble recorded in the shard info: each member holds its own copy of it, taken before the round.
 	selected := linkedhashset.New[string]()
-	for _, candidate := range candidateShard.Ensemble {
-		candidateID := candidate.GetIdentifier()
-		if candidateID == fromNodeID {
+	for nodeIter := loadRatios.NodeIterator(); nodeIter.Next(); {
+		node := nodeIter.Value()
+		if node.NodeID == fromNodeID {
 			continue
 		}
-		selected.Add(candidateID)
+		for shardIter := node.ShardIterator(); shardIter.Next(); {
+			if shard := shardIter.Value(); shard.Namespace == candidateShard.Namespace && shard.ShardID == candidateShard.ShardID {
+				selected.Add(node.NodeID)
+			}
+		}
 	}
 	sContext.SetSelected(selected)
 
